@@ -9,6 +9,12 @@
 (*          [addr, p = VotingPower, a = Accum, cb = CoinBase]              *)
 (*          (the public key is a function of the address)                  *)
 (*   prop : the cached pointer Proposer (0 = nil)                          *)
+(*   pt   : what that pointer points at: "nil" | "elem" (an element of a   *)
+(*          Validators slice: IncrementAccum stores the element it         *)
+(*          selected, Copy() takes the pointer over) | "detached" (an      *)
+(*          object of its own that carries the proposer's VALUES: what     *)
+(*          decoding a persisted set yields -- LoadStatus,                 *)
+(*          LoadStatusByHeight, LoadValidators after a restart)            *)
 (*   tvp  : the cached totalVotingPower (0 = not computed)                 *)
 (*   rot  : ghost -- TRUE while the set has only been rotated since        *)
 (*          NewValidatorSet built it                                       *)
@@ -35,6 +41,12 @@
 (*   Drop               B is forgotten                                     *)
 (*   UStat(list)        updateStatus(status, .., list) through ApplyBlock: *)
 (*                      A := next set, B := status.LastValidators          *)
+(*   Reload(t)          the holder's set is replaced by what decoding its  *)
+(*                      encoding yields (SaveStatus .. restart ..          *)
+(*                      LoadStatus): same validators and accums, Proposer  *)
+(*                      a detached object, the unexported cached total     *)
+(*                      gone.  Enabled in any state, followed by anything  *)
+(*                      (node.NewNode hands out status.Copy() next).       *)
 (*                                                                         *)
 (* IncAlgo selects the rotation algorithm:                                 *)
 (*   "coded" -- IncrementAccum(k) exactly as /repo has it: add k*power to  *)
@@ -42,6 +54,12 @@
 (*              subtract the total (DEVIATION: not equal to k single       *)
 (*              steps for unequal powers)                                  *)
 (*   "fixed" -- the designed algorithm: k times the single step            *)
+(* CopyAlgo selects what Copy() does with the cached proposer:             *)
+(*   "takeover" -- as /repo has it: the pointer is taken over as it is     *)
+(*   "identity" -- NEGATIVE instance (ValSetCopyIdentity.cfg): the copy's  *)
+(*              proposer is the copied element that IS (pointer identity)  *)
+(*              the old proposer, else nil -- loses a detached proposer;   *)
+(*              TLC must report ReloadTransparent / TwinAgreement violated *)
 (*                                                                         *)
 (* Bounded instances (all of this module):                                 *)
 (*   ValSet.cfg, ValSetBig.cfg            rotation cycles and twins        *)
@@ -51,6 +69,13 @@
 (*   ValSetClipMods.cfg                   totals and priorities clip       *)
 (*   ValSetAsCoded.cfg                    IncAlgo = "coded": TLC reports   *)
 (*                                        PathIndependence violated        *)
+(*   ValSetReload.cfg, ValSetReloadBig.cfg  Reload (persist, restart, load)  *)
+(*                                        on rotation cycles and twins     *)
+(*   ValSetReloadMods.cfg,                Reload around structural changes *)
+(*   ValSetReloadMods3.cfg                                                 *)
+(*   ValSetClipReload.cfg                 Reload on the 5-bit machine      *)
+(*   ValSetCopyIdentity.cfg               CopyAlgo = "identity": TLC must  *)
+(*                                        report a violation (control)     *)
 (*                                                                         *)
 (* Idiom: `\A x \in {e} : P(x)` and `CHOOSE r \in {f(x) : x \in {e}} : TRUE` *)
 (* bind the value of e once.  (TLC re-evaluates an operator application    *)
@@ -72,6 +97,7 @@ CONSTANTS NAddr,      \* number of abstract addresses
           ChangeMax,  \* largest change list UpdateOrderIndependent permutes
           MaxI,       \* machine integers are MinI..MaxI
           IncAlgo,    \* "coded" | "fixed"
+          CopyAlgo,   \* "takeover" | "identity"
           Ops         \* enabled actions (sub-models for the different configs)
 
 Addr == 1..NAddr
@@ -105,7 +131,7 @@ AbsV(x)    == IF x < 0 THEN -x ELSE x
 
 (* ---- the ValidatorSet ------------------------------------------------- *)
 Val(ad, p, a, cb) == [addr |-> ad, p |-> p, a |-> a, cb |-> cb]
-Dead == [live |-> FALSE, vals |-> <<>>, prop |-> Nil, tvp |-> 0, rot |-> FALSE, age |-> 0]
+Dead == [live |-> FALSE, vals |-> <<>>, prop |-> Nil, pt |-> "nil", tvp |-> 0, rot |-> FALSE, age |-> 0]
 
 Addrs(vs) == {vs[i].addr : i \in 1..Len(vs)}
 
@@ -131,13 +157,13 @@ Dec(vs, tot, n, pr) ==
        CHOOSE r \in {Dec(ws, tot, n - 1, vs[m].addr) : ws \in {[vs EXCEPT ![m].a = SubClip(@, tot)]}} : TRUE
 IncCoded(s, k) == LET tot == Total(s)
                       r   == Dec(Bump(s.vals, k), tot, k, s.prop)
-                  IN  [s EXCEPT !.vals = r.vals, !.prop = r.prop, !.tvp = tot]
+                  IN  [s EXCEPT !.vals = r.vals, !.prop = r.prop, !.pt = "elem", !.tvp = tot]
 
 \* --- the designed rotation: k single steps ---
 Step(s) == LET tot == Total(s)
                vs  == Bump(s.vals, 1)
                m   == MaxIdx(vs)
-           IN  [s EXCEPT !.vals = [vs EXCEPT ![m].a = SubClip(@, tot)], !.prop = vs[m].addr, !.tvp = tot]
+           IN  [s EXCEPT !.vals = [vs EXCEPT ![m].a = SubClip(@, tot)], !.prop = vs[m].addr, !.pt = "elem", !.tvp = tot]
 RECURSIVE Walk(_, _)
 Walk(s, n) == IF n = 0 THEN s ELSE CHOOSE r \in {Walk(t, n - 1) : t \in {Step(s)}} : TRUE
 IncFixed(s, k) == Walk(s, k)
@@ -152,7 +178,7 @@ InsertSorted(vs, v) == IF vs = <<>> THEN <<v>>
 RECURSIVE SortByAddr(_)
 SortByAddr(l) == IF l = <<>> THEN <<>> ELSE InsertSorted(SortByAddr(Tail(l)), Head(l))
 NewValidatorSet(l) ==
-  LET s0 == [live |-> TRUE, vals |-> SortByAddr(l), prop |-> Nil, tvp |-> 0,
+  LET s0 == [live |-> TRUE, vals |-> SortByAddr(l), prop |-> Nil, pt |-> "nil", tvp |-> 0,
              rot |-> (\A i \in 1..Len(l) : l[i].a = 0), age |-> 0]
   IN  IF Len(l) > 0 THEN Inc(s0, 1) ELSE s0
 
@@ -161,7 +187,7 @@ SearchIdx(vs, ad) == IF \E i \in 1..Len(vs) : ad <= vs[i].addr
                      THEN CHOOSE i \in 1..Len(vs) : ad <= vs[i].addr /\ \A j \in 1..(i - 1) : ad > vs[j].addr
                      ELSE Len(vs) + 1
 Found(vs, ad) == LET i == SearchIdx(vs, ad) IN i <= Len(vs) /\ vs[i].addr = ad
-Invalidate(s, vs) == [s EXCEPT !.vals = vs, !.prop = Nil, !.tvp = 0, !.rot = FALSE, !.age = 0]
+Invalidate(s, vs) == [s EXCEPT !.vals = vs, !.prop = Nil, !.pt = "nil", !.tvp = 0, !.rot = FALSE, !.age = 0]
 
 AddV(s, v) == LET i == SearchIdx(s.vals, v.addr) IN
   IF i > Len(s.vals) THEN [set |-> Invalidate(s, Append(s.vals, v)), ok |-> TRUE]
@@ -176,7 +202,14 @@ RemoveV(s, ad) == LET i == SearchIdx(s.vals, ad) IN
   ELSE [set |-> s, ok |-> FALSE]
 
 \* Copy(): the validators are copied, the Proposer pointer and the cached total are taken over
-CopyOf(s) == s
+\* (whatever the pointer points at -- the copy names the same proposer as the original).
+\* The "identity" variant re-points an element and drops everything else.
+CopyOf(s) == IF CopyAlgo = "identity" /\ s.pt = "detached" THEN [s EXCEPT !.prop = Nil, !.pt = "nil"] ELSE s
+
+\* What decoding the encoding of s yields (ser / amino over the exported fields Validators and
+\* Proposer): the same validators in the same order with the same accums; Proposer an object of
+\* its own with the proposer's values; the unexported totalVotingPower is not persisted.
+Decode(s) == [s EXCEPT !.pt = (IF s.prop = Nil THEN "nil" ELSE "detached"), !.tvp = 0]
 
 \* Hash(): Merkle root over the validators in slice order, each leaf covering
 \* (Address, PubKey, CoinBase, VotingPower) -- modelled by the leaf sequence itself
@@ -265,6 +298,16 @@ Drop  == /\ ("copy" \in Ops \/ "ustat" \in Ops) /\ B.live
          /\ B' = Dead /\ twin' = FALSE /\ d' = 0 /\ UNCHANGED <<A, mods>>
          /\ last' = [op |-> "drop"]
 
+\* persist-and-reload of one holder (a restart reloads status.Validators and
+\* status.LastValidators: Reload("A") then Reload("B")); rotation counts are untouched
+Reload(t) == /\ "reload" \in Ops
+             /\ \E s \in {IF t = "A" THEN A ELSE B} :
+                  /\ s.live /\ Len(s.vals) > 0
+                  /\ A' = (IF t = "A" THEN Decode(s) ELSE A)
+                  /\ B' = (IF t = "B" THEN Decode(s) ELSE B)
+             /\ UNCHANGED <<twin, d, mods>>
+             /\ last' = [op |-> "reload", t |-> t]
+
 UStat(l) == /\ "ustat" \in Ops /\ A.live /\ Len(A.vals) > 0
             /\ \E u \in {UpdateStatus(A, l)} :
                  /\ u.changed => mods < MaxMods
@@ -279,6 +322,7 @@ Next == \/ \E l \in NewLists : New(l)
         \/ \E ad \in Addr, p \in Powers, c \in Coinbases, a \in ArgAccums : Add(Val(ad, p, a, c)) \/ Update(Val(ad, p, a, c))
         \/ \E ad \in Addr : Remove(ad)
         \/ Copy \/ Adopt \/ Drop
+        \/ Reload("A") \/ Reload("B")
         \/ \E l \in Variants(A) : UStat(l)
 
 Spec == Init /\ [][Next]_vars
@@ -291,6 +335,7 @@ Holders == {s \in (IF B.live THEN {} ELSE {A}) : s.live /\ Len(s.vals) > 0}
 
 InRange(x) == x >= MinI /\ x <= MaxI
 SetOK(s) == /\ s.live \in BOOLEAN /\ s.prop \in Addr \cup {Nil} /\ InRange(s.tvp)
+            /\ s.pt \in {"nil", "elem", "detached"}
             /\ \A i \in 1..Len(s.vals) : /\ s.vals[i].addr \in Addr /\ s.vals[i].cb \in Coinbases
                                          /\ InRange(s.vals[i].p) /\ InRange(s.vals[i].a)
 TypeOK == SetOK(A) /\ SetOK(B) /\ twin \in BOOLEAN /\ d \in -MaxD..MaxD /\ mods \in 0..MaxMods
@@ -299,6 +344,7 @@ TypeOK == SetOK(A) /\ SetOK(B) /\ twin \in BOOLEAN /\ d \in -MaxD..MaxD /\ mods 
 Sorted == \A s \in {A, B} : \A i \in 1..(Len(s.vals) - 1) : s.vals[i].addr < s.vals[i + 1].addr
 \* the cached proposer is a member of the set; the cached total is the total
 CachesCoherent == \A s \in {A, B} : /\ s.prop # Nil => s.prop \in Addrs(s.vals)
+                                    /\ (s.pt = "nil") <=> (s.prop = Nil)
                                     /\ s.tvp # 0 => s.tvp = SumPow(s.vals, Len(s.vals))
 
 SameRot(s, t) == /\ Len(s.vals) = Len(t.vals)
@@ -331,6 +377,18 @@ EvidenceProposerAgrees ==
   \A s \in Holders : \A r \in 1..MaxK : \A x \in {Inc(CopyOf(s), r)}, y \in {Walk(s, r)} :
      GetProposer(x) = GetProposer(y)
 
+\* persistence is transparent: the set a restarted node decodes, and the Copy() of it that
+\* node.NewNode hands to the consensus state / block-sync reactor / evidence pool, name the same
+\* proposer, have the same members, priorities, total and identity as the set of a node that
+\* kept running, and rotate to the same proposers (rounds 1..MaxK of this height, and
+\* LastValidators: the round-r proposer of the previous height in fault evidence)
+ReloadTransparent ==
+  \A s \in {x \in {A, B} : x.live /\ Len(x.vals) > 0} :
+     \A t \in {Decode(s)} : \A c \in {CopyOf(t)} : \A cc \in {CopyOf(c)} :
+        /\ SameRot(t, s) /\ SameRot(c, s) /\ SameRot(cc, s)
+        /\ Total(c) = Total(s) /\ Hash(c) = Hash(s)
+        /\ \A k \in 1..MaxK : \A x \in {Inc(c, k)}, y \in {Inc(s, k)} : SameRot(x, y)
+
 \* one call with k = 1 is the single step under both algorithms (per-block rotation unaffected)
 Inc1Agree == \A s \in Holders : IncCoded(s, 1) = IncFixed(s, 1)
 
@@ -360,8 +418,8 @@ Conservation ==
 
 \* identity
 HashIgnoresAccum == \A s \in Holders : \A k \in 1..MaxK : \A t \in {Inc(s, k)} : Hash(t) = Hash(s)
-HashStable == [][ /\ last'.op \in {"inc", "copy", "drop"} => Hash(A') = Hash(A)
-                  /\ last'.op = "inc" => Hash(B') = Hash(B)
+HashStable == [][ /\ last'.op \in {"inc", "copy", "drop", "reload"} => Hash(A') = Hash(A)
+                  /\ last'.op \in {"inc", "reload"} => Hash(B') = Hash(B)
                   /\ last'.op = "copy" => Hash(B') = Hash(A)
                   /\ last'.op = "adopt" => Hash(A') = Hash(B) ]_vars
 Perms(l) == {p \in [1..Len(l) -> 1..Len(l)] : \A i, j \in 1..Len(l) : i # j => p[i] # p[j]}
@@ -395,7 +453,7 @@ Saturates ==
           /\ t.vals[i].addr = t.prop => t.vals[i].a <= AddClip(s.vals[i].a, s.vals[i].p)
 
 (* ---- export for the replay harness ------------------------------------ *)
-SetView(s) == [live |-> s.live, vals |-> s.vals, prop |-> s.prop, tvp |-> s.tvp, rot |-> s.rot,
+SetView(s) == [live |-> s.live, vals |-> s.vals, prop |-> s.prop, pt |-> s.pt, tvp |-> s.tvp, rot |-> s.rot,
                gp |-> GetProposer(s), tot |-> (IF s.live THEN Total(s) ELSE 0)]
 Proj(a, b, tw, dd, mm) == [A |-> SetView(a), B |-> SetView(b), twin |-> tw, d |-> dd, mods |-> mm]
 Edge == PrintT(ToJson([from |-> Proj(A, B, twin, d, mods), act |-> last', to |-> Proj(A', B', twin', d', mods')]))
